@@ -366,7 +366,13 @@ def degree_view(g, which):
             else:
                 yield st1, Raised("KeyError", where="degree[]: node not in graph")
 
-    return SV("view", {"name": which + "_degree", "plan": plan, "getitem": getitem, "graph": g})
+    def call(engine, st, args, kwargs):
+        # G.degree(n) for one node n: the number (a node that is not in the graph raises)
+        if len(args) != 1 or kwargs or args[0].kind in ("list", "set", "tuple"):
+            raise OutsideSubset("degree view called with an nbunch / weight")
+        yield from getitem(engine, st, args[0])
+
+    return SV("view", {"name": which + "_degree", "plan": plan, "getitem": getitem, "call": call, "graph": g})
 
 
 def graph_attr(engine, st, g, attr):
